@@ -32,11 +32,16 @@ def gen_script(rng):
     pending = []      # (uid, release_at_test)
     for t in range(ntests):
         actions = []
-        # release threads scheduled for this test
+        # release threads scheduled for this test: before this test starts its own threads (their idents are then
+        # likely to be reused, D12) or after (a thread ends and another is left behind in one test, no reuse)
+        release = []
         for u, at in list(pending):
             if at == t:
-                actions.append(["finish", u])
+                release.append(["finish", u])
                 pending.remove((u, at))
+        release_late = rng.random() < 0.5
+        if not release_late:
+            actions += release
         for _ in range(rng.choice([0, 1, 1, 2, 3])):
             api = rng.choice(["threading", "_thread", "_thread_ct"])
             name = rng.choice(["worker-%d", "ign-%d", "w%d", "ab=ab-%d", "IGN-%d"]) % uid
@@ -47,6 +52,11 @@ def gen_script(rng):
             elif fate == "leak-later" and t + 1 < ntests:
                 pending.append((uid, rng.randint(t + 1, ntests - 1)))
             uid += 1
+        if release_late:
+            actions += release
+        if rng.random() < 0.15:
+            # the test skips itself after what it did (the check for threads left behind runs all the same)
+            actions.append(["skip"])
         tests.append({"id": t, "actions": actions})
     # --ignore-new-thread may be given several times: each pattern stands alone (match mode)
     ignore = rng.choice([["ign"], ["ign"], ["(?i)ign", "W\\d"], ["(w)orker-9", "(\\w+)=\\1"], ["ign", "w\\d+$"], ["IGN", "ign"]])
